@@ -17,7 +17,7 @@ import (
 
 func c14Loop(steps int) {
 	c14Reset()
-	vThreads()
+	vSchedulePolicy(vRange("schedulePolicy", 0, 2)) // thread mode, under each of the three scheduling policies
 	VerboseLogs = false
 	cw, err := New("/etc/tls/tls.crt", "/etc/tls/tls.key")
 	if err != nil || cw == nil {
